@@ -35,6 +35,7 @@ class Ctx:
         self.quiet = quiet
         self._escapes = {}
         self.stopped_early = None
+        self.undecided = []
         self.t0 = time.time()
 
     # -------------------------------------------------------------- services
@@ -80,6 +81,12 @@ class Ctx:
         else:
             self.bad(rule, key or what, 'FAILED: ' + what, site, detail)
         return cond
+
+    def unrecognised(self, rule, what, site=None, detail=None):
+        """the construct a rule is about is written in a shape the rule cannot decide (neither the confirmed one nor an
+        identifiable deviation from it): no verdict for this rule - the run ends as ANALYSIS-ERROR (exit 2) unless a
+        violation was positively identified elsewhere"""
+        self.undecided.append({'rule': rule, 'what': what, 'site': site, 'detail': detail})
 
     def note(self, text):
         if text not in self.notes:
@@ -236,6 +243,11 @@ def main(argv):
             rc = 1
         if not a.no_evidence:
             write_evidence(ctx, mod, time.time() - t0, len(new), extra)
+        if rc == 0 and ctx.undecided:
+            for u in ctx.undecided:
+                print('ANALYSIS-ERROR property=%s rule %s cannot decide this tree: %s%s' % (
+                    prop, u['rule'], u['what'], (' at ' + u['site']) if u['site'] else ''))
+            rc = 2
         if ctx.stopped_early:
             print('NOTE property=%s later rules were not evaluated on this tree (%s)' % (prop, ctx.stopped_early))
         nob = len(ctx.obligations)
